@@ -231,7 +231,8 @@ def make_family(name, reqs, fault_kinds=None, build=build):
         conc.check_serializable(ctx, build, reqs, results, final)
         return finish(ctx, ','.join(str(r.status) for r in results),
                       info=dict(points=sched.points))
-    return Family(name, path, bounds=dict(
+    return Family(name, path, conformance=not (
+        fault_kinds and 'deadlock+rollback' in fault_kinds), bounds=dict(
         requests=[r.name for r in reqs], provider='one provider, stored and '
         'supplied generations symbolic (equal or not, stale or not)'))
 
